@@ -102,6 +102,12 @@ class EvoRecorder:
             a = [float(t) for t in y]
         elif arg == "tuple":
             a = tuple(float(t) for t in y)
+        elif arg == "intlist":          # y must have integer coordinates: the same point, typed as Python ints
+            a = [int(t) for t in y]
+        elif arg == "int64":
+            a = np.array([int(t) for t in y], dtype=np.int64)
+        elif arg == "int32":
+            a = np.array([int(t) for t in y], dtype=np.int32)
         else:
             a = np.array(y, dtype=np.double)
         x = self.ev.GetInverseImage(a) if via == "inv" else self.ev.GetPreimages(a)
